@@ -312,6 +312,7 @@ def run_C05(ctx, rng, tier, res, known):
         cases += gens.gen_seams(rng, f)[::2]
         cases += gens.gen_bigint_ties(rng, f, 1200 if q else 30000)
         cases += gens.gen_near_tie_posexp(rng, f, 1000 if q else 30000)
+        cases += gens.gen_pow10_prefix(rng, f)
         # the (w, q) pairs whose 128-bit product has an all-ones low word (the fall-back inside Eisel-Lemire
         # that only the non-compact builds have), as parser inputs
         tbl = gens.read_lemire_table(os.path.join(WORK, "dump.std.txt"))
@@ -363,6 +364,7 @@ def run_C06(ctx, rng, tier, res, known):
         cases += _mod().cases_long(rng, tier, f)
         cases += gens.gen_bigint_ties(rng, f, 1200 if tier == "quick" else 30000)
         cases += gens.gen_near_tie_posexp(rng, f, 1200 if tier == "quick" else 30000)
+        cases += gens.gen_pow10_prefix(rng, f)
     _mod().check_pf("C06", cases, ctx.cfgs, ctx.profiles, res, known)
     # internal-stage detector for parse_mantissa (digit bookkeeping); never a verdict by itself
     pm = []
